@@ -681,3 +681,49 @@ func init() {
 			}}
 	})
 }
+
+func init() {
+	// a configuration entry reaches one follower only, its leader is deposed, and the next leader has an entry of
+	// its own term at that index: the follower's first conflicting entry is the configuration entry itself
+	regScenario("member-trunc5", func() *Scenario {
+		ns := append(voters(5), NodeSpec{Suffrage: raft.Nonvoter, StartUp: true})
+		return &Scenario{Nodes: ns, Devs: DevAll, Horizon: 900, Goal: goalConverged, AutoRestart: true,
+			Steps: []Step{
+				stepApplyLeader("apply1"),
+				stepDo("pair-off-leader-and-one-follower", whenSettled, func(w *World) {
+					l := w.leader()
+					f := w.aFollower()
+					w.vals["L1"], w.vals["F"] = l.id, f.id
+					for _, o := range w.nodes {
+						if o.id != l.id && o.id != f.id {
+							w.cut(l.id, o.id, true)
+							w.cut(f.id, o.id, true)
+						}
+					}
+					w.addNonvoter(l, 5, 0)
+				}),
+				stepDo("cut-the-pair-apart", func(w *World) bool {
+					f := w.nodes[w.vals["F"]]
+					l := f.store.Peek(f.store.Hi())
+					return w.netIdle() && l != nil && l.Type == raft.LogConfiguration && f.store.Hi() > 1
+				}, func(w *World) { w.cut(w.vals["L1"], w.vals["F"], true) }),
+				stepDo("follower-rejoins-the-majority", func(w *World) bool {
+					l := w.stableLeader()
+					return l != nil && l.id != w.vals["L1"] && l.id != w.vals["F"] && w.netIdle()
+				}, func(w *World) {
+					f := w.vals["F"]
+					for _, o := range w.nodes {
+						if o.id != f && o.id != w.vals["L1"] {
+							w.cut(f, o.id, false)
+						}
+					}
+				}),
+				stepDo("heal-all", func(w *World) bool { return w.netIdle() }, func(w *World) {
+					for k := range w.blocked {
+						delete(w.blocked, k)
+					}
+				}),
+				stepDo("apply-final", whenSettled, func(w *World) { w.apply(w.leader(), 0) }),
+			}}
+	})
+}
